@@ -1,3 +1,212 @@
-(* Properties/C05.v — statements only. *)
-From Dnp3V Require Import Outstation.Session Outstation.SessionProofs.
+(* Properties/C05.v — statements only.
+
+   C05: a retransmitted request is answered from memory and never executed twice; every fragment the
+   outstation re-sends (the answer to a repeat, an echo during a confirm wait, an unsolicited retry)
+   is identical to a fragment it has already transmitted, never a mixture of two.
+
+   Vocabulary (Outstation/Session.v is the model; the rest is in Outstation/SessionLemmas_c05.v and
+   Outstation/SessionC05Proofs.v):
+     Reach cfg h s        s is reachable from start-up (ostart) by steps (ostep), for any events and any
+                          answers of the environment; h is everything observed so far, in order
+     classify .. = FtRepeatNonRead resp
+                          the fragment is the request recorded last: same sequence number, identical
+                          bytes, function neither CONFIRM nor READ (C05_repeat_classification)
+     echo_of s from resp  [OTx from (response_bytes r (s_sol_buf s))] for resp = Some r, else []
+     bg ob                ob is not a callback (OCb), not OInfo IClearRestart, not OInfo (IIdleRequest ..):
+                          "the idle loop and the timers going on, nothing taken up, nothing executed"
+     quiet ob             ob is neither OCb _ nor OInfo IClearRestart
+     ustart ob            ob is a database call, a missing answer, an OTx or OInfo (IEnterUnsolWait _):
+                          what check_unsolicited emits when it starts an unsolicited response
+     repeat_prefix c fn seq pre
+                          what precedes the answer, by the control state c the repeat arrives in:
+                          CIdle: [OInfo (IIdleRequest fn seq)];  CUnsolWait: [];
+                          CSolWait: [OInfo ISolNewRequest; ODb DbReset] ++ u ++ i with ustart on u and
+                          i = [] or [OInfo (IIdleRequest fn seq)]
+     opened_by h dest b q h = h1 ++ OTx dest b :: OInfo (IEnterUnsolWait q) :: h2 and h2 contains no
+                          IEnterUnsolWait: b opened the unsolicited confirm wait that is the last one *)
+From Dnp3V Require Import Outstation.Session Outstation.SessionLemmas_c05 Outstation.SessionC05Proofs.
 Open Scope N_scope.
+
+(* ---------- what "repeated" means ------------------------------------------------------------------- *)
+
+Theorem C05_repeat_classification : forall s bytes ctl fn obj resp,
+  classify s None bytes ctl fn obj = FtRepeatNonRead resp <->
+  fn <> fn_confirm /\ fn <> fn_read /\ (exists hdrs rh, obj = ObjOk hdrs rh) /\
+  exists l, s_last s = Some l /\ lr_seq l = ctl_seq ctl /\ lr_bytes l = bytes /\ resp = lr_response l.
+Proof. exact classify_repeat_nonread_iff. Qed.
+Print Assumptions C05_repeat_classification.
+
+(* ---------- 1. a repeated non-READ request is not executed a second time ------------------------------ *)
+
+Theorem C05_repeat_not_reexecuted : forall cfg h s from bytes d ans ctl fn obj resp s' o,
+  Reach cfg h s ->
+  to_treq cfg from d = TqRequest ctl fn obj ->
+  classify s None bytes ctl fn obj = FtRepeatNonRead resp ->
+  ostep cfg s (ERx from None bytes d) ans = (s', o) ->
+  (exists pre post,
+     o = pre ++ echo_of s from resp ++ post /\ forallb bg post = true /\
+     repeat_prefix (s_control s) fn (ctl_seq ctl) pre) /\
+  forallb quiet o = true.
+Proof. exact repeat_not_reexecuted. Qed.
+Print Assumptions C05_repeat_not_reexecuted.
+
+(* ---------- 2. the remembered response is coherent with the transmit buffer ---------------------------- *)
+
+Theorem C05_last_response_coherent : forall cfg h s l r,
+  Reach cfg h s -> s_last s = Some l -> lr_response l = Some r ->
+  exists dest, In (OTx dest (response_bytes r (s_sol_buf s))) h /\
+               (o_any_master cfg = false -> dest = o_master cfg).
+Proof. exact last_response_coherent. Qed.
+Print Assumptions C05_last_response_coherent.
+
+Theorem C05_sol_wait_remembers_awaited_fragment : forall cfg h s se dl rs,
+  Reach cfg h s -> s_control s = CSolWait se dl rs ->
+  exists l r, s_last s = Some l /\ lr_response l = Some r /\
+              ctl_seq (r_ctl r) = se_ecsn se mod 16 /\
+              exists dest, In (OTx dest (response_bytes r (s_sol_buf s))) h /\
+                           (o_any_master cfg = false -> dest = o_master cfg).
+Proof. exact sol_wait_remembers_awaited_fragment. Qed.
+Print Assumptions C05_sol_wait_remembers_awaited_fragment.
+
+(* ---------- 3. the reply to a repeat is a fragment sent before ------------------------------------------- *)
+
+Theorem C05_repeat_reply_identical : forall cfg h s from bytes d ans ctl fn obj r s' o,
+  Reach cfg h s ->
+  to_treq cfg from d = TqRequest ctl fn obj ->
+  classify s None bytes ctl fn obj = FtRepeatNonRead (Some r) ->
+  ostep cfg s (ERx from None bytes d) ans = (s', o) ->
+  let X := response_bytes r (s_sol_buf s) in
+  (exists pre post, o = pre ++ OTx from X :: post /\ forallb bg post = true /\
+                    repeat_prefix (s_control s) fn (ctl_seq ctl) pre) /\
+  exists dest, In (OTx dest X) h /\ (o_any_master cfg = false -> dest = from).
+Proof. exact repeat_reply_identical. Qed.
+Print Assumptions C05_repeat_reply_identical.
+
+Theorem C05_repeat_read_echo_identical : forall cfg h s from bytes d ans ctl fn obj resp hdrs rh se dl rs s' o,
+  Reach cfg h s ->
+  s_control s = CSolWait se dl rs ->
+  to_treq cfg from d = TqRequest ctl fn obj ->
+  classify s None bytes ctl fn obj = FtRepeatRead resp hdrs rh ->
+  ostep cfg s (ERx from None bytes d) ans = (s', o) ->
+  exists r post,
+    resp = Some r /\ ctl_seq (r_ctl r) = se_ecsn se mod 16 /\
+    o = OTx from (response_bytes r (s_sol_buf s)) :: post /\ forallb bg post = true /\
+    exists dest, In (OTx dest (response_bytes r (s_sol_buf s))) h /\ (o_any_master cfg = false -> dest = from).
+Proof. exact repeat_read_echo_identical. Qed.
+Print Assumptions C05_repeat_read_echo_identical.
+
+Theorem C05_resend_is_earlier_fragment : forall cfg h s,
+  Reach cfg h s ->
+  (forall l r from, s_last s = Some l -> lr_response l = Some r ->
+     exists b, repeat_solicited s from r = [OTx from b] /\
+               exists dest, In (OTx dest b) h /\ (o_any_master cfg = false -> dest = o_master cfg)) /\
+  (forall resp n rt dl, s_control s = CUnsolWait resp n rt dl ->
+     exists b, repeat_unsolicited cfg s resp = [OTx (o_master cfg) b] /\ In (OTx (o_master cfg) b) h).
+Proof. exact resend_is_earlier_fragment. Qed.
+Print Assumptions C05_resend_is_earlier_fragment.
+
+(* ---------- 4. unsolicited retries ------------------------------------------------------------------------ *)
+
+Theorem C05_unsol_wait_coherent : forall cfg h s resp n rt dl,
+  Reach cfg h s -> s_control s = CUnsolWait resp n rt dl ->
+  opened_by h (o_master cfg) (response_bytes resp (s_unsol_buf s)) (ctl_seq (r_ctl resp)) /\
+  r_fn resp = fn_unsol_response.
+Proof. exact unsol_wait_coherent. Qed.
+Print Assumptions C05_unsol_wait_coherent.
+
+Theorem C05_unsol_retry_identical : forall cfg h s resp n rt dl t s1 o1,
+  Reach cfg h s -> s_control s = CUnsolWait resp n rt dl ->
+  rt <> Some 0%nat -> s_deferred s = None ->
+  fire_deadline cfg (upd_now s t) = (s1, o1) ->
+  let Y := response_bytes resp (s_unsol_buf s) in
+  o1 = [OInfo (IUnsolTimeout (ctl_seq (r_ctl resp)) true); OTx (o_master cfg) Y] /\
+  opened_by h (o_master cfg) Y (ctl_seq (r_ctl resp)) /\
+  s_unsol_buf s1 = s_unsol_buf s /\
+  exists rt' dl', s_control s1 = CUnsolWait resp n rt' dl'.
+Proof. exact unsol_retry_identical. Qed.
+Print Assumptions C05_unsol_retry_identical.
+
+(* ---------- the hypotheses are satisfiable: concrete histories ----------------------------------------------- *)
+
+Definition ex_cfg (unsol : bool) : ocfg :=
+  {| o_master := 1; o_any_master := false; o_unsol := unsol; o_broadcast := true;
+     o_confirm_ms := 5000; o_select_ms := 5000; o_retries := Some 2%nat; o_retry_delay_ms := 0;
+     o_max_controls := None; o_sol_tx := 2048; o_delay_ms := 0; o_cold := None; o_warm := None;
+     o_wtime := 0; o_freeze := 0 |}.
+
+Definition noev : answer := AEvinfo false false false false.
+
+(* a WRITE (clear RESTART, sequence 3); a database change records an event; the same WRITE again:
+   it is classified as a repeat, no IClearRestart fires again, the answer is the old `C3 81 00 00`
+   although the database would now report class 1 events (AEvinfo true ..) *)
+Definition ex_wr_bytes : list N := [195; 2; 80; 1; 0; 7; 7; 0].
+Definition ex_wr_obj : objres := ObjOk [WIin [(7, false)]] [true].
+Definition ex_wr : oevent := ERx 1 None ex_wr_bytes (DOk 195 2 RvOk ex_wr_obj).
+
+Example C05_ex_write_repeated_from_idle :
+  to_treq (ex_cfg false) 1 (DOk 195 2 RvOk ex_wr_obj) = TqRequest 195 2 ex_wr_obj /\
+  let '(s, h) := run_from_start (ex_cfg false) 0 0 0 [] [(ex_wr, [noev]); (EDbChange, [])] in
+  (h,
+   s_control s,
+   classify s None ex_wr_bytes 195 2 ex_wr_obj,
+   snd (ostep (ex_cfg false) s ex_wr [AEvinfo true false false false]))
+  = ([OInfo (IIdleRequest 2 3); OInfo IClearRestart; ODb DbEvinfo; OTx 1 [195; 129; 0; 0]],
+     CIdle,
+     FtRepeatNonRead (Some {| r_ctl := 195; r_fn := 129; r_iin1 := 0; r_iin2 := 0; r_size := 0 |}),
+     [OInfo (IIdleRequest 2 3); OTx 1 [195; 129; 0; 0]]).
+Proof. split; vm_compute; reflexivity. Qed.
+
+(* a READ (sequence 5) answered in two fragments; fragment 1 confirmed; the READ repeated while
+   fragment 2 (sequence 6, `66 81 80 00 09 09`) awaits its confirm: the echo is fragment 2 *)
+Definition ex_rd_bytes : list N := [197; 1; 60; 1; 6].
+Definition ex_rd_obj : objres := ObjOk [WOther] [true].
+Definition ex_rd : oevent := ERx 1 None ex_rd_bytes (DOk 197 1 RvOk ex_rd_obj).
+Definition ex_confirm (seq : N) : oevent := ERx 1 None [192 + seq; 0] (DOk (192 + seq) 0 RvOk (ObjOk [] [])).
+
+Example C05_ex_read_repeated_in_second_fragment :
+  let '(s, h) := run_from_start (ex_cfg false) 0 0 0 []
+                   [(ex_rd, [AIin2 0; AWrite false false [1; 2; 3]; noev]);
+                    (ex_confirm 5, [AWrite true true [9; 9]; noev])] in
+  (h,
+   s_control s,
+   classify s None ex_rd_bytes 197 1 ex_rd_obj,
+   snd (ostep (ex_cfg false) s ex_rd []))
+  = ([OInfo (IIdleRequest 1 5); ODb DbSelect; ODb DbWrite; ODb DbEvinfo;
+      OTx 1 [165; 129; 128; 0; 1; 2; 3]; OInfo (IEnterSolWait 5);
+      OInfo (ISolConfirmed 5); ODb DbClearWritten; ODb DbWrite; ODb DbEvinfo;
+      OTx 1 [102; 129; 128; 0; 9; 9]],
+     CSolWait {| se_ecsn := 6; se_fin := true |} 5001 RStep2,
+     FtRepeatRead (Some {| r_ctl := 102; r_fn := 129; r_iin1 := 128; r_iin2 := 0; r_size := 6 |}) [WOther] [true],
+     [OTx 1 [102; 129; 128; 0; 9; 9]]).
+Proof. vm_compute. reflexivity. Qed.
+
+(* unsolicited: the null response at start-up is confirmed, class 1 is enabled, an event goes out in
+   an unsolicited response (sequence 1); nobody confirms: after the confirm timeout the identical
+   fragment is transmitted again *)
+Definition ex_unsol_confirm (seq : N) : oevent :=
+  ERx 1 None [208 + seq; 0] (DOk (208 + seq) 0 RvOk (ObjOk [] [])).
+Definition ex_enable : oevent := ERx 1 None [193; 20; 60; 2; 6] (DOk 193 20 RvOk (ObjOk [WCls 1] [true])).
+
+Example C05_ex_unsolicited_retry :
+  let '(s, h) := run_from_start (ex_cfg true) 0 0 0 [noev]
+                   [(ex_unsol_confirm 0, []);
+                    (ex_enable, [noev; AUnsol 1 [2; 2; 40; 1; 0; 0; 0; 129]; AEvinfo true false false false])] in
+  (h,
+   s_control s,
+   s_deferred s,
+   snd (fire_deadline (ex_cfg true) (upd_now s 5001)),
+   snd (ostep (ex_cfg true) s (ESleep 5000) []))
+  = ([ODb DbEvinfo; OTx 1 [240; 130; 128; 0]; OInfo (IEnterUnsolWait 0);
+      OInfo (IUnsolConfirmed 0); OInfo (IIdleRequest 20 1); ODb DbEvinfo; OTx 1 [193; 129; 128; 0];
+      ODb (DbWriteUnsol true false false); ODb DbEvinfo;
+      OTx 1 [241; 130; 130; 0; 2; 2; 40; 1; 0; 0; 0; 129]; OInfo (IEnterUnsolWait 1)],
+     CUnsolWait {| r_ctl := 241; r_fn := 130; r_iin1 := 130; r_iin2 := 0; r_size := 12 |} false (Some 2%nat) 5001,
+     None,
+     [OInfo (IUnsolTimeout 1 true); OTx 1 [241; 130; 130; 0; 2; 2; 40; 1; 0; 0; 0; 129]],
+     [OAt 5001; OInfo (IUnsolTimeout 1 true); OTx 1 [241; 130; 130; 0; 2; 2; 40; 1; 0; 0; 0; 129]]).
+Proof. vm_compute. reflexivity. Qed.
+
+(* the histories above are reachable in the sense of the theorems *)
+Example C05_ex_reachable : forall cfg sel op iin a0 evs s h,
+  run_from_start cfg sel op iin a0 evs = (s, h) -> Reach cfg h s.
+Proof. exact run_from_start_reach. Qed.
